@@ -152,7 +152,7 @@ def cycles_reach(m: int, shape: int) -> bool:
 
 CONDITIONS = [
     {'fn': 'mutants', 'slices': pipeline.ALL_SLICES,
-     'quick_slices': pipeline.QUICK_SLICES, 'quick': 110, 'thorough': 1500,
+     'quick_slices': pipeline.QUICK_SLICES, 'quick': 110, 'thorough': 600,
      'bound': pipeline.MUTANT_BOUND},
     {'fn': 'mutants_reach',
      'slices': [pipeline.slice_for('plain', 0, 2)],
